@@ -628,6 +628,7 @@ static int cmd_run1(const std::string &id, int tier, uint64_t seed, uint64_t ind
     if (verbose) { printf("%s\n", p.json().c_str()); fflush(stdout); }
     RunResult r = m->exec(p);
     printf("%s", ser_result(r).c_str());
+    if (getenv("VSIM_TWICE")) { RunResult r2 = m->exec(p); printf("second-run fp %s %s\n", u64hex(r2.fingerprint).c_str(), r2.fingerprint == r.fingerprint ? "same" : "DIFFERENT"); }
     return r.violation ? 1 : 0;
 }
 
